@@ -1,19 +1,19 @@
 (** C10 — futures run once, give every reader the same outcome, report status consistently. *)
-From Lisp Require Import Base ConcFuture ConcFutureProofs Lockset LocksetProofs PinsCommon PinsFuture.
+From Lisp Require Import Base ConcFuture ConcFutureProofs Lockset LocksetProofs Paths PinsCommon PinsFuture.
 From Lisp.Gen Require Import ConcActions.
 Local Open Scope nat_scope.
 
 (** the model interprets exactly the action sequences of today's source (regenerated each run) *)
-Theorem C10_source_body : conc_NewFuture_go = expected_future_go. Proof. exact future_go_actions. Qed.
-Theorem C10_source_deref : conc_Future_Deref = expected_future_deref. Proof. exact future_deref_actions. Qed.
-Theorem C10_source_cancel : conc_Future_Cancel = expected_future_cancel. Proof. exact future_cancel_actions. Qed.
-Theorem C10_source_is_done : conc_Future_IsDone = expected_is_done. Proof. exact is_done_actions. Qed.
-Theorem C10_source_is_cancelled : conc_Future_IsCancelled = expected_is_cancelled. Proof. exact is_cancelled_actions. Qed.
-Theorem C10_source_new_future : conc_NewFuture = expected_new_future. Proof. exact new_future_actions. Qed.
+Theorem C10_source_body : same_paths (fn_paths conc_NewFuture_go) future_go_paths = true. Proof. exact future_go_actions. Qed.
+Theorem C10_source_deref : same_paths (fn_paths conc_Future_Deref) future_deref_paths = true. Proof. exact future_deref_actions. Qed.
+Theorem C10_source_cancel : same_paths (fn_paths conc_Future_Cancel) future_cancel_paths = true. Proof. exact future_cancel_actions. Qed.
+Theorem C10_source_is_done : same_paths (fn_paths conc_Future_IsDone) is_done_paths = true. Proof. exact is_done_actions. Qed.
+Theorem C10_source_is_cancelled : same_paths (fn_paths conc_Future_IsCancelled) is_cancelled_paths = true. Proof. exact is_cancelled_actions. Qed.
+Theorem C10_source_new_future : same_paths (fn_paths conc_NewFuture) new_future_paths = true. Proof. exact new_future_actions. Qed.
 Theorem C10_source_builtins :
-  conc_Load_lit4 = toks ["Call:own:IsCancelled"; "Return"]%string /\
-  conc_Load_lit5 = toks ["Call:own:IsDone"; "Return"]%string /\
-  conc_future_cancel = toks ["Call:own:Cancel"; "Return"]%string.
+  same_paths (fn_paths conc_Load_lit4) [[own "IsCancelled"]] = true /\
+  same_paths (fn_paths conc_Load_lit5) [[own "IsDone"]] = true /\
+  same_paths (fn_paths conc_future_cancel) [[own "Cancel"]] = true.
 Proof. exact status_builtins_actions. Qed.
 
 (** no data race on the flags: every access, on every path of every function, under f.mu *)
